@@ -5,7 +5,7 @@ from vlib import NoVerdict, log
 
 CFG = {
     # prop: (quick MC cfgs, thorough MC cfgs, random-trace ops, faults in random traces)
-    "C07": dict(quick=["MCShim_q07"], thorough=["MCShim_q07", "MCShim_q07b", "MCShim_t"],
+    "C07": dict(quick=["MCShim_q07", "MCShim_q07c"], thorough=["MCShim_q07", "MCShim_q07c", "MCShim_q07b", "MCShim_t"],
                 ops=["list", "signers", "sign", "add", "addhard", "remove", "removeall", "dremove", "dadd", "dlock", "tick"], faults=[]),
     "C08": dict(quick=["MCShim_q08"], thorough=["MCShim_q08", "MCShim_t"],
                 ops=["list", "signers", "sign", "add", "addhard", "remove", "removeall", "lock", "unlock", "close", "dlock", "forward", "fstorm", "lockrace", "lockrace2"], faults=["fail"]),
